@@ -47,7 +47,7 @@ struct Program {
 }
 
 const UNIQUE_CLASSES: [&str; 9] = ["P8", "PB", "L40", "LS", "S4", "L16", "N8", "N40", "A32"];
-const ALL_CLASSES: [&str; 13] = ["P8", "PB", "L40", "LS", "S4", "L16", "S1", "Z0", "ZA", "N4", "N8", "N40", "A32"];
+const ALL_CLASSES: [&str; 14] = ["P8", "PB", "L40", "LS", "S4", "L16", "S1", "Z0", "ZA", "N4", "N8", "N40", "A32", "P0"];
 
 /// observer-heavy short programs: one or two threads each run a short script of state-changing calls while one or
 /// two threads that hold only ONE side call the observers back to back (30-40 calls). An observer whose answer is put
